@@ -1,1 +1,470 @@
-fn main() {}
+//! vhelper: the child process used by the C15 (`report`) and C16 (`emit`) checks.
+//! Deliberately independent of naijascript: std + libc only.
+//!
+//! `vhelper report <side_file> [args...]`
+//!     creates `<side_file>.spawned` first thing (spawn marker), then writes to `<side_file>`
+//!     (temp + rename) a JSON object: argv (hex, every element including argv[0]), the whole
+//!     environment as [key_hex, value_hex] pairs, cwd (hex), stdin read to EOF (hex), what kind of
+//!     file stdin is, and the pid. Exit code from env `VH_EXIT` (default 0). When `VH_KEYS` is set
+//!     only the listed (comma separated) variables are reported (value null when unset).
+//!
+//! `VH_SIDE=<side_file> vhelper [args...]` (first argument neither `report` nor `emit`): the same
+//!     report, for commands without arguments.
+//!
+//! `vhelper emit <plan_file>`
+//!     writes its pid to `<plan_file>.pid`, then plays the plan: per stream a list of steps
+//!     (`{"write": n}`, `{"sleep": ms}`, `{"close": true}`) executed by one thread per stream with
+//!     raw `write(2)` calls of exactly the chunk size, position-coded content, optional byte
+//!     patches (`"patch": {"stdout": [[offset, "hex"], ..]}`), then `linger_ms`, then
+//!     `{"end": {"exit": code}}` or `{"end": {"hang": true}}`.
+
+use std::io::{Read, Write};
+use std::os::unix::ffi::{OsStrExt, OsStringExt};
+
+fn hex(bytes: &[u8]) -> String {
+    const D: &[u8; 16] = b"0123456789abcdef";
+    let mut s = String::with_capacity(bytes.len() * 2);
+    for b in bytes {
+        s.push(D[(b >> 4) as usize] as char);
+        s.push(D[(b & 15) as usize] as char);
+    }
+    s
+}
+
+fn unhex(s: &str) -> Vec<u8> {
+    let b = s.as_bytes();
+    let v = |c: u8| match c {
+        b'0'..=b'9' => c - b'0',
+        b'a'..=b'f' => c - b'a' + 10,
+        b'A'..=b'F' => c - b'A' + 10,
+        _ => 0,
+    };
+    b.chunks(2).filter(|c| c.len() == 2).map(|c| (v(c[0]) << 4) | v(c[1])).collect()
+}
+
+fn die(msg: &str) -> ! {
+    // not on stderr: stderr may be a captured stream under test
+    let _ = std::fs::write("/tmp/vhelper-last-error.txt", msg);
+    std::process::exit(97);
+}
+
+fn main() {
+    let args: Vec<std::ffi::OsString> = std::env::args_os().collect();
+    unsafe {
+        // die with the worker: a hanging helper must not outlive a killed worker
+        libc::prctl(libc::PR_SET_PDEATHSIG, libc::SIGKILL);
+        libc::signal(libc::SIGPIPE, libc::SIG_IGN);
+    }
+    match args.get(1).map(|a| a.as_bytes()) {
+        Some(b"report") => report(&args, args.get(2).cloned()),
+        Some(b"emit") => emit(&args),
+        // no sub-command: the side file comes from the environment, so that commands without
+        // any argument (or with arbitrary arguments) can be reported on as well
+        _ if std::env::var_os("VH_SIDE").is_some() => report(&args, std::env::var_os("VH_SIDE")),
+        _ => {
+            eprintln!("usage: vhelper report <side_file> [args...] | vhelper emit <plan_file>");
+            std::process::exit(2);
+        }
+    }
+}
+
+// ---------------------------------------------------------------------------
+// report
+// ---------------------------------------------------------------------------
+
+fn report(args: &[std::ffi::OsString], side: Option<std::ffi::OsString>) -> ! {
+    let Some(side) = side else { die("report: no side file") };
+    let side = std::path::PathBuf::from(side);
+    let mut marker = side.clone().into_os_string();
+    marker.push(".spawned");
+    // the marker comes before anything else
+    if std::fs::write(&marker, b"1").is_err() {
+        die("report: cannot write marker");
+    }
+
+    let mut out = String::new();
+    out.push_str("{\"pid\":");
+    out.push_str(&std::process::id().to_string());
+    out.push_str(",\"argv\":[");
+    for (i, a) in args.iter().enumerate() {
+        if i > 0 {
+            out.push(',');
+        }
+        out.push('"');
+        out.push_str(&hex(a.as_bytes()));
+        out.push('"');
+    }
+    out.push_str("],\"env\":[");
+    let keys = std::env::var_os("VH_KEYS");
+    let mut first = true;
+    if let Some(keys) = keys {
+        for k in keys.as_bytes().split(|b| *b == b',') {
+            if !first {
+                out.push(',');
+            }
+            first = false;
+            let key = std::ffi::OsString::from_vec(k.to_vec());
+            out.push_str("[\"");
+            out.push_str(&hex(k));
+            out.push_str("\",");
+            match std::env::var_os(&key) {
+                Some(v) => {
+                    out.push('"');
+                    out.push_str(&hex(v.as_bytes()));
+                    out.push('"');
+                }
+                None => out.push_str("null"),
+            }
+            out.push(']');
+        }
+    } else {
+        // the raw environment block, so that duplicates would be visible
+        unsafe extern "C" {
+            static environ: *const *const libc::c_char;
+        }
+        unsafe {
+            let mut p = environ;
+            while !p.is_null() && !(*p).is_null() {
+                let entry = std::ffi::CStr::from_ptr(*p).to_bytes();
+                let (k, v) = match entry.iter().skip(1).position(|b| *b == b'=') {
+                    Some(i) => (&entry[..=i], &entry[i + 2..]),
+                    None => (entry, &entry[entry.len()..]),
+                };
+                if !first {
+                    out.push(',');
+                }
+                first = false;
+                out.push_str("[\"");
+                out.push_str(&hex(k));
+                out.push_str("\",\"");
+                out.push_str(&hex(v));
+                out.push_str("\"]");
+                p = p.add(1);
+            }
+        }
+    }
+    out.push_str("],\"cwd\":");
+    match std::env::current_dir() {
+        Ok(d) => {
+            out.push('"');
+            out.push_str(&hex(d.as_os_str().as_bytes()));
+            out.push('"');
+        }
+        Err(_) => out.push_str("null"),
+    }
+
+    // what is fd 0?
+    let mut st: libc::stat = unsafe { std::mem::zeroed() };
+    let rc = unsafe { libc::fstat(0, &mut st) };
+    let kind = if rc != 0 {
+        "closed"
+    } else {
+        match st.st_mode & libc::S_IFMT {
+            libc::S_IFIFO => "pipe",
+            libc::S_IFCHR => "chr",
+            libc::S_IFREG => "reg",
+            libc::S_IFSOCK => "sock",
+            libc::S_IFDIR => "dir",
+            _ => "other",
+        }
+    };
+    out.push_str(",\"stdin_kind\":\"");
+    out.push_str(kind);
+    out.push_str("\",\"stdin_ino\":");
+    out.push_str(&(if rc == 0 { st.st_ino } else { 0 }).to_string());
+    out.push_str(",\"stdin_rdev\":");
+    out.push_str(&(if rc == 0 { st.st_rdev } else { 0 }).to_string());
+
+    let mut input = Vec::new();
+    let read_ok = rc == 0 && std::io::stdin().lock().read_to_end(&mut input).is_ok();
+    out.push_str(",\"stdin_read_ok\":");
+    out.push_str(if read_ok { "true" } else { "false" });
+    out.push_str(",\"stdin\":\"");
+    out.push_str(&hex(&input));
+    out.push_str("\"}");
+
+    let mut tmp = side.clone().into_os_string();
+    tmp.push(".tmp");
+    if std::fs::write(&tmp, out.as_bytes()).is_err() || std::fs::rename(&tmp, &side).is_err() {
+        die("report: cannot write side file");
+    }
+    let code = std::env::var("VH_EXIT").ok().and_then(|v| v.parse::<i32>().ok()).unwrap_or(0);
+    std::process::exit(code);
+}
+
+// ---------------------------------------------------------------------------
+// minimal JSON reader (objects, arrays, strings without exotic escapes, numbers, literals)
+// ---------------------------------------------------------------------------
+
+#[derive(Debug, Clone)]
+#[allow(dead_code)]
+enum J {
+    Null,
+    Bool(bool),
+    Num(f64),
+    Str(String),
+    Arr(Vec<J>),
+    Obj(Vec<(String, J)>),
+}
+
+impl J {
+    fn get(&self, k: &str) -> Option<&J> {
+        match self {
+            J::Obj(kv) => kv.iter().find(|(n, _)| n == k).map(|(_, v)| v),
+            _ => None,
+        }
+    }
+    fn num(&self) -> Option<f64> {
+        match self {
+            J::Num(n) => Some(*n),
+            _ => None,
+        }
+    }
+    fn arr(&self) -> &[J] {
+        match self {
+            J::Arr(v) => v,
+            _ => &[],
+        }
+    }
+}
+
+struct P<'a> {
+    s: &'a [u8],
+    i: usize,
+}
+
+impl P<'_> {
+    fn ws(&mut self) {
+        while self.i < self.s.len() && self.s[self.i].is_ascii_whitespace() {
+            self.i += 1;
+        }
+    }
+    fn value(&mut self) -> Result<J, String> {
+        self.ws();
+        let Some(&c) = self.s.get(self.i) else { return Err("eof".into()) };
+        match c {
+            b'{' => {
+                self.i += 1;
+                let mut kv = Vec::new();
+                loop {
+                    self.ws();
+                    if self.s.get(self.i) == Some(&b'}') {
+                        self.i += 1;
+                        break;
+                    }
+                    let J::Str(k) = self.value()? else { return Err("key".into()) };
+                    self.ws();
+                    if self.s.get(self.i) != Some(&b':') {
+                        return Err("colon".into());
+                    }
+                    self.i += 1;
+                    let v = self.value()?;
+                    kv.push((k, v));
+                    self.ws();
+                    if self.s.get(self.i) == Some(&b',') {
+                        self.i += 1;
+                    }
+                }
+                Ok(J::Obj(kv))
+            }
+            b'[' => {
+                self.i += 1;
+                let mut v = Vec::new();
+                loop {
+                    self.ws();
+                    if self.s.get(self.i) == Some(&b']') {
+                        self.i += 1;
+                        break;
+                    }
+                    v.push(self.value()?);
+                    self.ws();
+                    if self.s.get(self.i) == Some(&b',') {
+                        self.i += 1;
+                    }
+                }
+                Ok(J::Arr(v))
+            }
+            b'"' => {
+                self.i += 1;
+                let mut out = Vec::new();
+                while let Some(&b) = self.s.get(self.i) {
+                    self.i += 1;
+                    match b {
+                        b'"' => return String::from_utf8(out).map(J::Str).map_err(|e| e.to_string()),
+                        b'\\' => {
+                            let e = *self.s.get(self.i).ok_or("escape")?;
+                            self.i += 1;
+                            out.push(match e {
+                                b'n' => b'\n',
+                                b't' => b'\t',
+                                b'r' => b'\r',
+                                other => other,
+                            });
+                        }
+                        other => out.push(other),
+                    }
+                }
+                Err("unterminated string".into())
+            }
+            b't' if self.s[self.i..].starts_with(b"true") => {
+                self.i += 4;
+                Ok(J::Bool(true))
+            }
+            b'f' if self.s[self.i..].starts_with(b"false") => {
+                self.i += 5;
+                Ok(J::Bool(false))
+            }
+            b'n' if self.s[self.i..].starts_with(b"null") => {
+                self.i += 4;
+                Ok(J::Null)
+            }
+            _ => {
+                let beg = self.i;
+                while self.i < self.s.len() && matches!(self.s[self.i], b'0'..=b'9' | b'-' | b'+' | b'.' | b'e' | b'E') {
+                    self.i += 1;
+                }
+                std::str::from_utf8(&self.s[beg..self.i])
+                    .ok()
+                    .and_then(|t| t.parse::<f64>().ok())
+                    .map(J::Num)
+                    .ok_or_else(|| format!("bad token at {beg}"))
+            }
+        }
+    }
+}
+
+// ---------------------------------------------------------------------------
+// emit
+// ---------------------------------------------------------------------------
+
+/// Position code shared with the engine (harness/src/engines/proccap.rs::code_byte).
+fn code_byte(stream: u8, k: u64) -> u8 {
+    let base = if stream == 1 { b'a' } else { b'A' };
+    base + ((k + (k / 26) * 7 + (k / 676) * 3) % 26) as u8
+}
+
+#[derive(Clone)]
+enum Step {
+    Write(u64),
+    Sleep(u64),
+    Close,
+}
+
+fn steps_of(plan: &J, name: &str) -> Vec<Step> {
+    let mut v = Vec::new();
+    if let Some(list) = plan.get(name) {
+        for s in list.arr() {
+            if let Some(n) = s.get("write").and_then(J::num) {
+                v.push(Step::Write(n as u64));
+            } else if let Some(n) = s.get("sleep").and_then(J::num) {
+                v.push(Step::Sleep(n as u64));
+            } else if s.get("close").is_some() {
+                v.push(Step::Close);
+            }
+        }
+    }
+    v
+}
+
+fn patches_of(plan: &J, name: &str) -> Vec<(u64, Vec<u8>)> {
+    let mut v = Vec::new();
+    if let Some(list) = plan.get("patch").and_then(|p| p.get(name)) {
+        for p in list.arr() {
+            let a = p.arr();
+            if let (Some(off), Some(J::Str(h))) = (a.first().and_then(J::num), a.get(1)) {
+                v.push((off as u64, unhex(h)));
+            }
+        }
+    }
+    v
+}
+
+fn play(fd: i32, stream: u8, steps: &[Step], patches: &[(u64, Vec<u8>)]) {
+    let mut offset: u64 = 0;
+    let mut open = true;
+    for step in steps {
+        match step {
+            Step::Sleep(ms) => std::thread::sleep(std::time::Duration::from_millis(*ms)),
+            Step::Close => {
+                if open {
+                    unsafe { libc::close(fd) };
+                    open = false;
+                }
+            }
+            Step::Write(n) => {
+                let n = *n;
+                if open && n > 0 {
+                    let mut buf: Vec<u8> = (offset..offset + n).map(|k| code_byte(stream, k)).collect();
+                    for (at, bytes) in patches {
+                        for (j, b) in bytes.iter().enumerate() {
+                            let pos = at + j as u64;
+                            if pos >= offset && pos < offset + n {
+                                buf[(pos - offset) as usize] = *b;
+                            }
+                        }
+                    }
+                    let mut done = 0usize;
+                    while done < buf.len() {
+                        let rc = unsafe { libc::write(fd, buf[done..].as_ptr().cast(), buf.len() - done) };
+                        if rc > 0 {
+                            done += rc as usize;
+                        } else if rc < 0 && std::io::Error::last_os_error().kind() == std::io::ErrorKind::Interrupted {
+                        } else {
+                            // EPIPE (reader went away) or any other error: stop writing this stream
+                            open = false;
+                            break;
+                        }
+                    }
+                }
+                offset += n;
+            }
+        }
+    }
+}
+
+fn emit(args: &[std::ffi::OsString]) -> ! {
+    let Some(plan_path) = args.get(2) else { die("emit: no plan file") };
+    let plan_path = std::path::PathBuf::from(plan_path);
+    let mut pid_path = plan_path.clone().into_os_string();
+    pid_path.push(".pid");
+    let mut pid_tmp = pid_path.clone();
+    pid_tmp.push(".tmp");
+    if let Ok(mut f) = std::fs::File::create(&pid_tmp) {
+        let _ = write!(f, "{}", std::process::id());
+        drop(f);
+        let _ = std::fs::rename(&pid_tmp, &pid_path);
+    }
+    let text = match std::fs::read(&plan_path) {
+        Ok(t) => t,
+        Err(_) => die("emit: cannot read plan"),
+    };
+    let plan = match (P { s: &text, i: 0 }).value() {
+        Ok(p) => p,
+        Err(e) => die(&format!("emit: bad plan: {e}")),
+    };
+    let so = steps_of(&plan, "stdout");
+    let se = steps_of(&plan, "stderr");
+    let po = patches_of(&plan, "stdout");
+    let pe = patches_of(&plan, "stderr");
+    let t1 = std::thread::spawn(move || play(1, 1, &so, &po));
+    let t2 = std::thread::spawn(move || play(2, 2, &se, &pe));
+    let _ = t1.join();
+    let _ = t2.join();
+    let linger = plan.get("linger_ms").and_then(J::num).unwrap_or(0.0) as u64;
+    if linger > 0 {
+        std::thread::sleep(std::time::Duration::from_millis(linger));
+    }
+    let end = plan.get("end");
+    if end.and_then(|e| e.get("hang")).is_some() {
+        let parent = unsafe { libc::getppid() };
+        loop {
+            std::thread::sleep(std::time::Duration::from_millis(500));
+            if unsafe { libc::getppid() } != parent {
+                std::process::exit(98);
+            }
+        }
+    }
+    let code = end.and_then(|e| e.get("exit")).and_then(J::num).unwrap_or(0.0) as i32;
+    // exit without running destructors of std's stdout (nothing is buffered there anyway)
+    unsafe { libc::_exit(code) }
+}
